@@ -55,7 +55,7 @@ var pureStdlib = map[string]string{
 	"strconv.ParseInt": "", "strconv.ParseFloat": "", "strconv.ParseUint": "", "strconv.Atoi": "", "strconv.FormatInt": "", "strconv.FormatFloat": "", "strconv.Itoa": "",
 	"html.EscapeString": "", "html.UnescapeString": "", "utf8.RuneCountInString": "0 <= result <= len(s)", "utf8.ValidString": "",
 	"math.Ceil": "", "math.Floor": "", "math.Round": "", "math.Abs": "", "math.Pow": "",
-	"rand.Intn": "requires n > 0; 0 <= result < n", "rand.Seed": "", "rand.Shuffle": "",
+	"rand.Intn": "requires n > 0; 0 <= result < n", "rand.Seed": "", "rand.Shuffle": "", "rand.New": "fresh generator, no effect on the program heap", "rand.NewSource": "fresh source",
 	"time.Now": "", "time.Time.UnixNano": "", "os.ReadFile": "fresh []byte or error", "filepath.Abs": "", "filepath.Join": "", "errors.Is": "",
 	"reflect.TypeOf": "", "reflect.ValueOf": "", "reflect.DeepEqual": "",
 	"unicode.ToUpper": "", "unicode.IsSpace": "", "unicode.IsUpper": "", "unicode.ToLower": "",
@@ -144,6 +144,13 @@ func (x *Exec) stdlibCall(st *State, fr *Frame, v *ssa.Call, f *ssa.Function, ar
 		st.assumeDef(And(Ge(r, IntC(0)), Le(r, Slen(s))))
 		setRes(r)
 		return
+	case "utf8.DecodeRuneInString":
+		use("0 <= size <= len(s); size >= 1 when s is not empty")
+		r := freshRes().(TupleV)
+		sz := x.scalar(r[1])
+		sl := Slen(x.scalar(args[0]))
+		st.assumeDef(And(Ge(sz, IntC(0)), Le(sz, sl), Implies(Gt(sl, IntC(0)), Ge(sz, IntC(1)))))
+		return
 	case "errors.New", "fmt.Errorf":
 		use("fresh non-nil error")
 		r := freshRes().(*IfaceV)
@@ -153,6 +160,7 @@ func (x *Exec) stdlibCall(st *State, fr *Frame, v *ssa.Call, f *ssa.Function, ar
 		use("fresh slice; len >= 1")
 		r := freshRes().(*SliceV)
 		st.assumeDef(And(Ge(r.Len, IntC(1)), Ge(r.Base, st.alloc0)))
+		st.assumeDef(Implies(UF("lib!strings.Contains", SBool, x.scalar(args[0]), x.scalar(args[1])), Ge(r.Len, IntC(2))))
 		return
 	case "reflect.Value.Interface":
 		use("requires IsValid (not the zero Value) and CanInterface")
@@ -195,12 +203,15 @@ func (x *Exec) stdlibCall(st *State, fr *Frame, v *ssa.Call, f *ssa.Function, ar
 		st.assumeDef(Eq(UF("rvalue.kind", SInt, rv), UF("kindOfTag", SInt, i.Tag)))
 		x.kindFacts(st)
 		return
+	case "reflect.Value.IsNil":
+		use("pure")
+		setRes(UF("rvalue.isnil", SBool, x.scalar(args[0])))
+		return
 	case "reflect.Value.Elem":
-		use("requires Kind is Pointer or Interface; result valid iff the pointer is non-nil")
+		use("requires Kind is Pointer or Interface; the result is valid iff the pointer is not nil")
 		r := freshRes()
-		_ = r
-		// validity of the result is not known: a nil pointer yields the zero Value
 		st.assumeDef(UF("rvalue.caninterface", SBool, x.scalar(r)))
+		st.assumeDef(Eq(UF("rvalue.valid", SBool, x.scalar(r)), Not(UF("rvalue.isnil", SBool, x.scalar(args[0])))))
 		return
 	case "reflect.Value.Field":
 		use("requires struct kind and 0 <= i < NumField; CanInterface iff the field is exported")
